@@ -146,7 +146,8 @@ def c17_4(ctx):
         else:
             out.append(ctx.bad(spec, "verdict is `%s`, not the comparison of the computed root with the header's merkle root" % (ast.unparse(v) if v is not None else None), n.ast or fn, mod, key="verdict"))
     src = ast.unparse(fn)
-    if "MerkleTree(self.total)" in src and "populate_tree(flag_bits, hashes)" in src and "bytes_to_bit_field(self.flags)" in src and "[h[::-1] for h in self.hashes]" in src:
+    rev = "[h[::-1] for h in self.hashes]" in src or ("for h in self.hashes" in src and "hashes.append(h[::-1])" in src)
+    if "MerkleTree(self.total)" in src and "populate_tree(flag_bits, hashes)" in src and "bytes_to_bit_field(self.flags)" in src and rev:
         out.append(ctx.ok(spec, "the tree is rebuilt from the message's total, flag bits and hashes", fn, mod, key="inputs"))
     else:
         out.append(ctx.err(spec, "proof reconstruction idiom not recognised", fn, mod))
